@@ -131,6 +131,10 @@ def obligations(tier, seed):
         for ev in SC.EVENTS_BY_STATE[state]:
             out.append(ob('C18/step/%s/%s' % (S.STATE_NAMES[state], ev), 'ob_step', {'state': state, 'ev': ev},
                           covers=['stepped'], cap=120))
+            if ev == 'badlen':
+                for (t, ln) in SC.BADLEN[1:]:
+                    out.append(ob('C18/step/%s/%s/type=%d/len=%d' % (S.STATE_NAMES[state], ev, t, ln), 'ob_step',
+                                  {'state': state, 'ev': ev, 'cfg': {'badlen': (t, ln)}}, covers=['stepped'], cap=120))
     k = 4 if quick else 5
     for first_ev in ('tcp_ok',):
         for second in ('open_ok', 'ka', 'upd', 'notif', 'hdr_type', 'rr', 'open_badver', 'upd_bad', 'manual_stop',
